@@ -4,7 +4,7 @@ patch="$1"; prop="$2"; tier="${3:-quick}"
 wt=$(mktemp -d /tmp/trymut_wt.XXXXXX); rmdir "$wt"
 git -C /repo worktree add -q --detach "$wt" HEAD || exit 2
 ( cd "$wt" && { git apply "$patch" 2>/dev/null || git apply -3 "$patch" 2>/dev/null; } && [ -z "$(git diff --name-only --diff-filter=U)" ] ) || { echo "PATCH DOES NOT APPLY"; git -C /repo worktree remove --force "$wt"; exit 2; }
-cd /verif && VERIF_REPO="$wt" ./check "$prop" --tier "$tier" --no-evidence > /tmp/trymut.$$.out 2>&1; rc=$?
+cd "${VERIF_SNAP:-/verif}" && VERIF_REPO="$wt" ./check "$prop" --tier "$tier" --no-evidence > /tmp/trymut.$$.out 2>&1; rc=$?
 git -C /repo worktree remove --force "$wt"
 grep -E "^VIOLATION|^INFRA|^KNOWN|key=" /tmp/trymut.$$.out | cut -c1-400 | head -12
 echo "trymut: $patch on $prop ($tier) -> rc=$rc"
